@@ -52,6 +52,9 @@ def child_env(hashseed):
     return env
 
 
+CASE_WALL_S = 300     # wall-clock backstop per case (loops inside C code are invisible to the step budget)
+
+
 def batch_hashseed(verif_seed, b):
     return (verif_seed * 7919 + b * 104729 + 1) % (1 << 32)
 
@@ -185,22 +188,50 @@ class Aggregate:
 # ============================================================================
 # coordinator
 # ============================================================================
+import threading
+
+STOP = threading.Event()      # set when the verdict is already decided: running workers are killed
+_PROCS = set()
+_PROCS_LOCK = threading.Lock()
+
+
+def stop_all_workers():
+    STOP.set()
+    with _PROCS_LOCK:
+        for p in list(_PROCS):
+            try:
+                p.kill()
+            except OSError:
+                pass
+
+
 def _run_worker(job, hs, timeout):
+    if STOP.is_set():
+        return [], "", "stopped"
+    p = subprocess.Popen([PY, os.path.join(HERE, "run.py"), "--worker"], stdin=subprocess.PIPE, stdout=subprocess.PIPE,
+                         stderr=subprocess.PIPE, text=True, env=child_env(hs), cwd=HERE)
+    with _PROCS_LOCK:
+        _PROCS.add(p)
     try:
-        p = subprocess.run([PY, os.path.join(HERE, "run.py"), "--worker"], input=json.dumps(job), env=child_env(hs),
-                           capture_output=True, text=True, timeout=timeout, cwd=HERE)
-        out, err, rc = p.stdout, p.stderr, p.returncode
-    except subprocess.TimeoutExpired as e:
-        out = (e.stdout or b"").decode() if isinstance(e.stdout, bytes) else (e.stdout or "")
-        err = (e.stderr or b"").decode() if isinstance(e.stderr, bytes) else (e.stderr or "")
-        rc = "timeout"
+        try:
+            out, err = p.communicate(json.dumps(job), timeout=timeout)
+            rc = p.returncode
+        except subprocess.TimeoutExpired:
+            p.kill()
+            out, err = p.communicate()
+            rc = "timeout"
+    finally:
+        with _PROCS_LOCK:
+            _PROCS.discard(p)
+    if STOP.is_set() and rc not in (0,):
+        rc = "stopped"
     lines = []
-    for l in out.splitlines():
+    for l in (out or "").splitlines():
         try:
             lines.append(json.loads(l))
         except ValueError:
             pass
-    return lines, err, rc
+    return lines, err or "", rc
 
 
 def run_batch(check, tier, vseed, b, indices, ref_table, timeout, want_logs=False):
@@ -214,10 +245,10 @@ def run_batch(check, tier, vseed, b, indices, ref_table, timeout, want_logs=Fals
     all_lines, dead, errs = [], [], []
     rc = 0
     for _attempt in range(4):
-        if not todo:
+        if not todo or STOP.is_set():
             break
         job = {"check": check, "tier": tier, "seed": vseed, "indices": todo, "ref_table": ref_table,
-               "want_logs": want_logs, "run_timeout": 600}
+               "want_logs": want_logs, "run_timeout": CASE_WALL_S}
         lines, err, rc = _run_worker(job, hs, timeout)
         all_lines += lines
         if any("summary" in l for l in lines):
@@ -229,8 +260,12 @@ def run_batch(check, tier, vseed, b, indices, ref_table, timeout, want_logs=Fals
         culprit = started[-1] if started and started[-1] not in finished else None
         if culprit is None:
             break  # died outside any case: harness problem
-        job1 = dict(job, indices=[culprit], run_timeout=300)
-        l1, e1, rc1 = _run_worker(job1, hs, 700)
+        if STOP.is_set():
+            break
+        job1 = dict(job, indices=[culprit], run_timeout=CASE_WALL_S)
+        l1, e1, rc1 = _run_worker(job1, hs, CASE_WALL_S + 100)
+        if rc1 == "stopped":
+            break
         if any("summary" in l for l in l1):
             all_lines += l1   # a one-off (machine load): the retry completed
         else:
@@ -305,7 +340,7 @@ def coordinator(check, tier, runs, budget_s, workers, vseed):
 
         def submit():
             nonlocal next_b
-            while len(futs) < workers and next_b < n_batches and time.time() < deadline:
+            while len(futs) < workers and next_b < n_batches and time.time() < deadline and not STOP.is_set():
                 idx = list(range(next_b * B, min(total, (next_b + 1) * B)))
                 futs.add(pool.submit(run_batch, check, tier, vseed, next_b, idx, ref_table, batch_timeout))
                 next_b += 1
@@ -335,7 +370,12 @@ def coordinator(check, tier, runs, budget_s, workers, vseed):
                             violations.append((v, l["spec"], r["hashseed"]))
                 for dc in r.get("dead", []):
                     dead_cases.append((dc, r["hashseed"]))
-                if not got_summary or r.get("unfinished"):
+                    if check == "C03" and not STOP.is_set():
+                        # a case that kills its worker twice is a hang: the verdict is decided,
+                        # so do not spend CASE_WALL_S on every other case that meets the same loop
+                        sys.stderr.write("case %d did not terminate twice: stopping the remaining workers\n" % dc["case"])
+                        stop_all_workers()
+                if (not got_summary or r.get("unfinished")) and not STOP.is_set():
                     harness_errors.append("batch %d (hashseed %d) rc=%s last started case=%s unfinished=%s stderr tail: %s" % (
                         r["b"], r["hashseed"], r["rc"], last_start, r.get("unfinished"), r["stderr"][-1500:]))
             if len(violations) > 200:
